@@ -188,6 +188,10 @@ type ATStmt struct {
 	// existing row stays as it is), 'r' REPLACE (every non-key column takes the new value).  The model statement
 	// is the same `upsert`; only the SQL text differs.
 	Form byte
+	// NoCols: a plain INSERT has no column list (INSERT INTO t VALUES (...)): the values follow the table's order
+	NoCols bool
+	// Alias: an UPDATE / DELETE gives the table an alias and qualifies every column with it (UPDATE t AS a SET a.c = ...)
+	Alias bool
 	// RevCols: an INSERT / upsert lists its columns (and values) in the opposite order of the table's
 	RevCols bool
 	// Spell: how the statement writes the table name (0 as created, 1 UPPER, 2 `quoted`, 3 db.table, 4 `db`.`table`)
@@ -225,6 +229,8 @@ func spellStatements(c *ATCase) {
 		for _, st := range c.Locals[li].Stmts {
 			k++
 			st.RevCols = (h+3*k)%3 == 0
+			st.NoCols = (h+5*k)%4 == 1
+			st.Alias = (h+11*k)%5 == 2
 			if v := (h + 7*k) % 10; v >= 5 {
 				st.Spell = v - 5 + 1
 				if st.Spell > 4 {
@@ -271,15 +277,16 @@ func (s *ATStmt) Arm(e *memdb.Engine, table string) func() {
 }
 
 type sqlOut struct {
-	sb   strings.Builder
-	tok  strings.Builder
-	args []ATVal
+	sb        strings.Builder
+	tok       strings.Builder
+	args      []ATVal
+	colPrefix string // "a." when the statement gives the table the alias a
 }
 
 func (o *sqlOut) expr(sc *ATSchema, e *ATExpr) {
 	switch e.K {
 	case 'c':
-		o.sb.WriteString(sc.Cols[e.Col].Name)
+		o.sb.WriteString(o.colPrefix + sc.Cols[e.Col].Name)
 		fmt.Fprintf(&o.tok, "c%d.", e.Col)
 	case 'l':
 		o.sb.WriteString(e.Val.SQL())
@@ -352,7 +359,12 @@ func (s *ATStmt) Render(sc *ATSchema) (string, []interface{}, string) {
 	o := &sqlOut{}
 	switch s.Kind {
 	case 'U':
-		o.sb.WriteString("UPDATE " + s.tableText(sc) + " SET ")
+		if s.Alias && !s.HasLimit() {
+			o.colPrefix = "a."
+			o.sb.WriteString("UPDATE " + s.tableText(sc) + " AS a SET ")
+		} else {
+			o.sb.WriteString("UPDATE " + s.tableText(sc) + " SET ")
+		}
 		if s.HasLimit() {
 			fmt.Fprintf(&o.tok, "W%d:", len(s.Sets))
 		} else {
@@ -362,10 +374,10 @@ func (s *ATStmt) Render(sc *ATSchema) (string, []interface{}, string) {
 			if i > 0 {
 				o.sb.WriteString(", ")
 			}
-			o.sb.WriteString(sc.Cols[st.Col].Name + " = ")
+			o.sb.WriteString(o.colPrefix + sc.Cols[st.Col].Name + " = ")
 			if st.Plus >= 0 {
 				fmt.Fprintf(&o.tok, "%d:p%d:", st.Col, st.Plus)
-				o.sb.WriteString(sc.Cols[st.Plus].Name + " + ")
+				o.sb.WriteString(o.colPrefix + sc.Cols[st.Plus].Name + " + ")
 			} else {
 				fmt.Fprintf(&o.tok, "%d:v", st.Col)
 			}
@@ -376,7 +388,12 @@ func (s *ATStmt) Render(sc *ATSchema) (string, []interface{}, string) {
 		}
 		o.cond(sc, s.Where)
 	case 'D':
-		o.sb.WriteString("DELETE FROM " + s.tableText(sc))
+		if s.Alias && !s.HasLimit() {
+			o.colPrefix = "a."
+			o.sb.WriteString("DELETE FROM " + s.tableText(sc) + " AS a")
+		} else {
+			o.sb.WriteString("DELETE FROM " + s.tableText(sc))
+		}
 		if s.HasLimit() {
 			o.tok.WriteString("K")
 		} else {
@@ -407,7 +424,11 @@ func (s *ATStmt) Render(sc *ATSchema) (string, []interface{}, string) {
 		} else if s.Kind == 'Y' && s.Form == 'r' {
 			verb = "REPLACE INTO "
 		}
-		o.sb.WriteString(verb + s.tableText(sc) + " (" + strings.Join(names, ", ") + ") VALUES ")
+		if s.NoCols && s.Kind == 'X' && !rev && s.AutoForm == 0 {
+			o.sb.WriteString(verb + s.tableText(sc) + " VALUES ")
+		} else {
+			o.sb.WriteString(verb + s.tableText(sc) + " (" + strings.Join(names, ", ") + ") VALUES ")
+		}
 		fmt.Fprintf(&o.tok, "%c%d:%d:", s.Kind, len(s.Rows), len(sc.Cols))
 		for i, row := range s.Rows {
 			if i > 0 {
